@@ -531,3 +531,9 @@ mod test {
         }
     }
 }
+
+#[cfg(kani)]
+mod verif_kani {
+    use super::*;
+    include!(concat!(env!("LIBTW2_VERIF_HARNESS"), "/packer_lib.rs"));
+}
